@@ -326,7 +326,47 @@ def leg_roundtrip(part, tier, shard, nshards):
                 part.violation("C14/loads-empty", {"leg": "loads-empty", "case": "None"}, 'loads("", %s) returned %r' % (cfgname, r))
 
 
+# -- pairs: a call must not depend on the call made before it ------------------------------------------
+
+PAIR_CASES = [
+    ("m", [1], "a", None, None, None, "default"), ("m", [1], "a", 1.0, None, None, "default"), ("m", {"k": 1}, 7, "2.0", None, None, "v1"),
+    ("m", [], "b", None, None, True, "v1"), (None, [1], "r", None, True, None, "default"), (None, [1], "r", 1.0, True, None, "default"),
+    (None, ("FAULT", 0), "e", None, True, None, "default"), (None, ("FAULT", 1), "e", 1.0, True, None, "v1"), ("m", (1, 2), 0, 2.0, None, None, "nojsonclass"),
+    ("é", {}, 1.5, "1.0", None, None, "default"), ("m", None, "n", None, None, True, "default"), (None, None, "z", None, True, None, "v1"),
+]
+
+
+def pair_cases(tier):
+    return itertools.product(range(len(PAIR_CASES)), range(len(PAIR_CASES)), ("dump", "dumps"))
+
+
+def check_pair(case):
+    i, j, via = case
+    out = Out(cls="pair/" + via)
+
+    def run(c):
+        method, params, rpcid, version, resp, notify, cfgname = c
+        if via == "dump":
+            return J.dump(mkparams(params), method, rpcid, version, resp, notify, mkconfig(cfgname))
+        return json.loads(J.dumps(mkparams(params), method, resp, None, rpcid, version, notify, mkconfig(cfgname)))
+
+    try:
+        alone = run(PAIR_CASES[j])
+        run(PAIR_CASES[i])
+        after = run(PAIR_CASES[j])
+    except Exception as ex:
+        return out.bad("C14/pair/raises-%s" % type(ex).__name__, "%r raised %r" % (case, ex))
+    if not gen.same(gen.normalise(alone), gen.normalise(after)):
+        out.bad("C14/message-depends-on-previous-call", "%s%r gives %r alone but %r right after %s%r" % (via, PAIR_CASES[j], alone, after, via, PAIR_CASES[i]))
+    return out
+
+
+def leg_pairs(part, tier, shard, nshards):
+    drive(part, "pairs", pair_cases(tier), shard, nshards, check_pair)
+
+
 LEGS = {
+    "pairs": leg_pairs,
     "envelope-dump": _leg_envelope("dump"),
     "envelope-dumps": _leg_envelope("dumps"),
     "ids": leg_ids,
@@ -365,6 +405,8 @@ def replay(case):
         return check_envelope(c, leg.split("-", 1)[1]).viols
     if leg == "fault":
         return check_fault(c).viols
+    if leg == "pairs":
+        return check_pair(c).viols
     if leg == "roundtrip":
         return check_roundtrip(c).viols
     raise ValueError(leg)
